@@ -483,10 +483,13 @@ def parent(modname: str, tier: str, seed: int, only: str | None, nshards_opt: in
     for l in lines:
         print(l)
     if violations:
-        for sig, v in sorted(violations.items()):
+        for i, (sig, v) in enumerate(sorted(violations.items())):
             path = write_replay(prop, v)
             print(f"VIOLATION property={prop} replay={path}")
-            print(f"  signature={sig} count={v['count']} detail={v['detail'][:400]}")
+            if i < 12 or os.environ.get("VT_VERBOSE"):
+                print(f"  signature={sig} count={v['count']} detail={v['detail'][:(2000 if os.environ.get('VT_VERBOSE') else 260)]}")
+            else:
+                print(f"  signature={sig} count={v['count']}")
         return 1
     print(f"OK property={prop} tier={tier} seed={seed} cases={merged.cases} evaluations={merged.evaluations} "
           f"nontrivial={len(merged.nontrivial)} known_hits={sum(merged.known_hits.values())} wall={wall:.1f}s")
